@@ -193,6 +193,10 @@ def check_sendline(c, repo, cl):
     # return value
     rets = returns(f)
     c.check(bool(rets) and all(r.ast.value is not None for r in rets), f, rets[0].ast if rets else None, 'sendline returns a byte count', kind='ast', tag='returns')
+    for r in rets:
+        v = r.ast.value
+        if isinstance(v, ast.BinOp):
+            c.check(isinstance(v.op, ast.Add), f, r.ast, 'the counts of the two writes are added', witness=norm(v), kind='alg', tag='returns-sum')
 
 
 def check_write(c, repo, cl):
@@ -306,6 +310,7 @@ MUTANTS = [
     ('sendintr-as-eof', 'pty_spawn', "        n, byte = self.ptyproc.sendintr()", "        n, byte = self.ptyproc.sendeof()", 'D4'),
     ('coerce-latin1', 'spawnbase', "            return s.encode('utf-8')\n        return s\n\n    def _get_buffer", "            return s.encode('latin-1')\n        return s\n\n    def _get_buffer", 'D5'),
     ('coerce-send-or', 'spawnbase', "    def _coerce_send_string(self, s):\n        if self.encoding is None and not isinstance(s, bytes):", "    def _coerce_send_string(self, s):\n        if self.encoding is None or not isinstance(s, bytes):", 'D5'),
+    ('popen-sendline-count', 'popen_spawn', "        return n + self.send(self.linesep)", "        return n - self.send(self.linesep)", 'D2'),
     ('write-send-twice', 'popen_spawn', "        '''This is similar to send() except that there is no return value.\n        '''\n        self.send(s)", "        '''This is similar to send() except that there is no return value.\n        '''\n        self.send(s)\n        self.send(s[:0])", 'D2'),
 ]
 PRESERVING = [
